@@ -1321,6 +1321,14 @@ def gen_case_ext(rng, tier, nrec, gvals, gs):
         # few distinct records, repeated; the same fields in another order is another record
         base = gen_records(rng, "text", rng.choice([1, 2, 3, 4]), gvals)
         base += [list(reversed(r)) for r in base[:1]]
+        # separator-bearing values: a twin of a record whose first value swallows the next field as text (name, separators and all, for
+        # the usual separators , = and the ones this harness reads with ; :): equal as a joined line, different as a record
+        for r in list(base):
+            if len(r) >= 2 and rng.random() < 0.6:
+                ps, fs_ = rng.choice([("=", ","), ("=", ","), (":", ";"), ("=", ";"), (" ", ",")])
+                (k1, v1), (k2, v2) = r[0], r[1]
+                if ";" not in fs_ and ":" not in ps:               # the twin must itself be readable with --ifs ';' --ips ':'
+                    base.append([(k1, v1 + fs_ + k2 + ps + v2)] + r[2:])
         recs = [list(rng.choice(base)) for _ in range(nrec)]
         mode = rng.choice(["plain", "c", "c", "n"])
         return {"verb": "uniq-a", "mode": mode, "out": rng.choice(["count", "count", "n", "a", "x"]) if mode != "plain" else "count", "profile": "text"}, recs
